@@ -3,7 +3,7 @@
     Model: Model/Watcher.v; proofs: Proofs/Watcher.v.
     [sel_pure cur next L] is the set of files scan keeps for listing L, [nv e] = versionFromPath of e's path,
     [scan_pure] is scan's result ([C19_scan_never_panics] shows scan = Ok scan_pure on EVERY input). *)
-From ZV Require Import Lib.Base Model.Watcher Proofs.Watcher.
+From ZV Require Import Lib.Base Model.Watcher Proofs.Watcher Model.WatchLoop Proofs.WatchLoop.
 
 (** versionFromPath and DirectoryWatcher.scan terminate without panic on every path / listing / state
     (after fix 5288900; before it C19_version_from_path_no_panic_refuted held: "x_.z" panicked). *)
@@ -76,6 +76,48 @@ Theorem C19_equal_mtime_stale_refuted :
 Proof. exact equal_mtime_stale. Qed.
 Print Assumptions C19_equal_mtime_stale_refuted.
 
+(** ---- from directory changes to scans: the notification loop (Model/WatchLoop.v: initial scan BEFORE
+    watcher.Add, fsnotify events -> notify() -> capacity-1 channel `signal` -> goroutine 2 runs scan(); one-minute
+    ticker; fsnotify queue overflow drops events).  [scanned_after_last_change es] = the most recent scan of the
+    trace started after its last directory change, i.e. that scan read the final directory; together with
+    C19_scan_converges this is "once the directory stops changing the loaded set equals the directory". *)
+
+(** No lost wakeup: for EVERY interleaving of directory changes with the watcher's steps, if no change races with
+    the startup (all changes come after watcher.Add) and fsnotify drops no event, then whenever the watcher is
+    quiescent (no pending event, no token, no scan running) its last scan started after the last change. *)
+Theorem C19_no_lost_wakeup : forall (pre post : list levent) (s : lstate),
+  lrun l_init (pre ++ post) = Some s ->
+  existsb is_change pre = false -> existsb is_watch_add pre = true -> existsb is_drop post = false ->
+  quiescent s = true ->
+  scanned_after_last_change (pre ++ post) = true.
+Proof. exact no_lost_wakeup. Qed.
+Print Assumptions C19_no_lost_wakeup.
+
+(** The ticker repairs everything (startup races, dropped events): in EVERY execution, a tick that is followed by no
+    further change and by quiescence is followed by a scan, and that scan started after the last change. *)
+Theorem C19_tick_repairs : forall (a b : list levent) (s : lstate),
+  lrun l_init (a ++ ETick :: b) = Some s -> existsb is_change b = false -> quiescent s = true ->
+  existsb is_scan_start b = true /\ scanned_after_last_change (a ++ ETick :: b) = true.
+Proof. exact tick_repairs. Qed.
+Print Assumptions C19_tick_repairs.
+
+(** Without the ticker the statement is false: a change made while the initial scan is running (which includes
+    loading all shards) produces no event because the watch is installed only afterwards; the watcher goes quiescent
+    without ever scanning again (until the next event or the one-minute tick).  Observation `startup-window`. *)
+Theorem C19_quiescent_implies_scanned_refuted :
+  exists (es : list levent) (s : lstate),
+    lrun l_init es = Some s /\ quiescent s = true /\ existsb is_drop es = false /\ scanned_after_last_change es = false.
+Proof. exists [EChange 0; EInitScanEnd; EWatchAdd]. exact startup_window. Qed.
+Print Assumptions C19_quiescent_implies_scanned_refuted.
+
+(** The watcher never deadlocks: in every reachable state that is not quiescent (or in which the watch is not
+    installed yet) one of the watcher's own steps is executable. *)
+Theorem C19_watch_loop_progress : forall (es : list levent) (s : lstate),
+  lrun l_init es = Some s -> (quiescent s = false \/ l_watching s = false) ->
+  exists e s', own_step e = true /\ lstep s e = Some s'.
+Proof. exact watcher_progress. Qed.
+Print Assumptions C19_watch_loop_progress.
+
 (** ---- non-vacuity *)
 Definition s (l : list N) := l.
 Definition pA16 : path := [97; 95; 118; 49; 54; 46; 48; 46; 122; 111; 101; 107; 116]%N.   (* a_v16.0.zoekt *)
@@ -111,3 +153,21 @@ Example ex_history :
    (o_drop o2, o_load o2, map (fun sn => map snd sn) (o_snaps o2)) = ([pA16], [pA17; pB16], [[2%N]; [5%N; 3%N]])) /\
   w_loaded (scans 16 17 w_init [exL1; exL2; exL3]) = [(pB16, 5%N); (pA17, 3%N)].
 Proof. vm_compute. repeat split. Qed.
+
+(** the hypotheses of C19_no_lost_wakeup / C19_tick_repairs are satisfiable by executions with real work: two
+    changes coalesced into one token, a change during a scan (second scan follows), a dropped event + tick *)
+Example ex_loop_run :
+  let pre := [EInitScanEnd; EWatchAdd] in
+  let post := [EChange 1; EDeliver; EChange 0; EDeliver; EScanStart; EDeliver; EChange 0; EScanEnd; EDeliver; EScanStart; EScanEnd] in
+  (exists s, lrun l_init (pre ++ post) = Some s /\ quiescent s = true) /\
+  existsb is_change pre = false /\ existsb is_watch_add pre = true /\ existsb is_drop post = false.
+Proof. split; [eexists; split; reflexivity|repeat split]. Qed.
+Example ex_loop_tick :
+  let a := [EChange 0; EInitScanEnd; EWatchAdd; EChange 0; EDrop] in
+  let b := [EScanStart; EScanEnd] in
+  (exists s, lrun l_init (a ++ ETick :: b) = Some s /\ quiescent s = true) /\ existsb is_change b = false /\
+  scanned_after_last_change a = false.
+Proof. split; [eexists; split; reflexivity|repeat split]. Qed.
+Example ex_loop_progress_nontrivial :
+  exists s, lrun l_init [EInitScanEnd; EWatchAdd; EChange 2; EDeliver] = Some s /\ quiescent s = false.
+Proof. eexists; split; reflexivity. Qed.
